@@ -19,7 +19,8 @@ ALL_FEATS = ('bol', 'eol', 'fixtrail', 'vartrail', 'reject', 'yymore', 'yyless',
              'nul', 'eofrule', 'echo', 'terminate', 'sect3')
 
 class Variant:
-    def __init__(s, name, backend, feats=(), options=(), flags=(), header=False, tables=False, expect_refuse=False, note=''):
+    def __init__(s, name, backend, feats=(), options=(), flags=(), header=False, tables=False, expect_refuse=False, note='', raw_spec=None):
+        s.raw_spec = raw_spec
         s.name = name; s.backend = backend; s.feats = frozenset(feats)
         s.options = list(options); s.flags = list(flags)
         s.header = header; s.tables = tables
@@ -30,6 +31,7 @@ class Variant:
     @property
     def lang(s): return 'c++' if s.backend == 'cxx' else 'c'
     def spec(s):
+        if s.raw_spec is not None: return s.raw_spec
         return probe(s.backend, s.feats, s.options)
     def cmdline(s):
         return ['flex'] + s.flags + ['-o', 'lex.' + ('cc' if s.backend == 'cxx' else 'c'), 'spec.l']
